@@ -59,6 +59,9 @@ type fnSpec struct {
 	// globals: package-level variables the function may read (space separated); each becomes a leading parameter
 	// `g_<name>` of the Lean function (its value at the time of the call; written only by `init`)
 	globals string
+	// writes: a package-level variable (also listed in `globals`) the function assigns; a function without results
+	// (`init`) then returns the variable's final value
+	writes string
 }
 
 // groups in file order; a function may only call functions of its own or an earlier group
@@ -132,6 +135,13 @@ var whitelist2 = []fnSpec{
 	// group Road: tak/game.go hasRoad, bitboard.FloodGroups
 	{dir: "tak", file: "game.go", recv: "Position", name: "hasRoad", lean: "positionHasRoad", group: "Road", views: map[string]string{"p": "analysis.BlackGroups analysis.WhiteGroups cfg.c.B cfg.c.L cfg.c.R cfg.c.T move"}},
 	{dir: "bitboard", file: "bits.go", name: "FloodGroups", lean: "floodGroups", group: "Road", fuel: []string{"65"}},
+
+	// group MoveGen: tak/slide.go MkSlides, tak/move.go calculateSlides, Position.AllMoves
+	{dir: "tak", file: "slide.go", name: "MkSlides", lean: "mkSlides", group: "MoveGen"},
+	{dir: "tak", file: "move.go", name: "calculateSlides", lean: "calculateSlides", group: "MoveGen", globals: "slides"},
+	{dir: "tak", file: "move.go", name: "init", lean: "slidesInit", group: "MoveGen", globals: "slides", writes: "slides"},
+	{dir: "tak", file: "move.go", recv: "Position", name: "AllMoves", lean: "positionAllMoves", group: "MoveGen", globals: "slides",
+		views: map[string]string{"p": "Black Height White blackCaps cfg.Size move whiteCaps"}},
 }
 
 func init() { whitelist = append(whitelist, whitelist2...) }
@@ -1113,6 +1123,12 @@ func (t *tr) lhsName(e ast.Expr) string {
 		if t.absOf(e) != nil {
 			break
 		}
+		if t.isGlobal(e) {
+			if e.Name == t.spec.writes {
+				return t.expr(e)
+			}
+			break
+		}
 		return t.nm(e)
 	case *ast.SelectorExpr:
 		if id, ok := e.X.(*ast.Ident); ok {
@@ -1914,7 +1930,7 @@ func (t *tr) checkNames(root ast.Node, seen map[string]types.Object) {
 		if !ok || obj == nil {
 			return true
 		}
-		if _, isVar := obj.(*types.Var); !isVar {
+		if v, isVar := obj.(*types.Var); !isVar || v.IsField() {
 			return true
 		}
 		if t.abs[obj] != nil {
@@ -1990,6 +2006,10 @@ func (t *tr) signature(recv *ast.FieldList, ft *ast.FuncType) (ps []sigParam, rt
 		}
 	}
 	if ft.Results == nil || len(ft.Results.List) == 0 {
+		if lt, ok := t.globals[t.spec.writes]; ok && t.spec.writes != "" {
+			t.named = []string{"g_" + t.spec.writes}
+			return ps, lt, ""
+		}
 		t.fail(ft, "no result")
 		return
 	}
@@ -2093,6 +2113,9 @@ func (g *generator) function1(p *pkgInfo, spec fnSpec, group int, fd *ast.FuncDe
 	body := ""
 	if t.err == nil {
 		body = pre + t.stmts(fd.Body.List, func() string {
+			if t.spec.writes != "" && fd.Type.Results == nil {
+				return t.retVal(tuple(t.named))
+			}
 			t.fail(fd, "control reaches the end of the function without return")
 			return "?"
 		})
